@@ -275,6 +275,9 @@ func Gen(o Options) *Program {
 	if !o.NoServices && simrt.Flip("prog.service-chain", 0.4) {
 		p.addServiceChain(o)
 	}
+	if !o.NoServices && simrt.Flip("prog.service-diamond", 0.4) {
+		p.addServiceDiamond(o)
+	}
 	if o.StructConsts && simrt.Flip("prog.enum-struct-const", 0.5) {
 		p.addEnumStructConst(o)
 	}
@@ -353,6 +356,16 @@ func (p *Program) addRecursion() {
 		}
 	}
 	self := &FieldDef{ID: id, Name: fmt.Sprintf("self%d", id), Req: ReqOptional, Type: target}
+	if p.recDefaults && n > 0 && (target.Base == "list" || target.Base == "map") && simrt.Flip("rec.container-default", 0.2) {
+		// `typedef S Rt; struct S {1: optional list<Rt> kids = []}`: an empty container default
+		// on the recursive member itself (same early cast as F6 when Rt is linked first)
+		if target.Base == "list" {
+			self.Default = &ConstVal{Kind: CList}
+		} else {
+			self.Default = &ConstVal{Kind: CMap}
+		}
+		p.RecShape = shape
+	}
 	// fields are linked in declaration order: the position decides which of the
 	// struct's other fields are already linked when the recursion comes back
 	pos := len(s.Fields) - ch("rec.self-pos", len(s.Fields)+1)
@@ -418,6 +431,38 @@ func (p *Program) addServiceChain(o Options) {
 	base := mk(pt.c, "Base", nil)
 	mid := mk(pt.b, "Mid", &Ref{base.File, base.Name})
 	mk(pt.a, "Leaf", &Ref{mid.File, mid.Name})
+}
+
+// addServiceDiamond: file a includes b and f, f includes b; b declares a parent
+// service and, in the same file, a child whose name sorts before the parent's;
+// f declares another child of b's parent. Whether b's services are first met
+// through b itself or through f's child depends on the order in which a's
+// includes are visited.
+func (p *Program) addServiceDiamond(o Options) {
+	type tri struct{ a, b, f int }
+	var tris []tri
+	for _, fa := range p.Files {
+		for _, b := range fa.Includes {
+			for _, f := range fa.Includes {
+				if f != b && b != fa.Index && f != fa.Index && contains(p.Files[f].Includes, b) {
+					tris = append(tris, tri{fa.Index, b, f})
+				}
+			}
+		}
+	}
+	if len(tris) == 0 {
+		return
+	}
+	t := tris[ch("diamond.pick", len(tris))]
+	mk := func(fi int, name string, parent *Ref) *Def {
+		f := p.Files[fi]
+		d := &Def{Kind: KService, Name: p.name(name), Parent: parent}
+		d.Funcs = append(d.Funcs, &Func{Name: fmt.Sprintf("fn%d_0", p.seq), Args: p.genFields(f, "arg", 2, o, false)})
+		return p.add(f, d)
+	}
+	par := mk(t.b, "Parent", nil)
+	mk(t.b, "Achild", &Ref{par.File, par.Name})
+	mk(t.f, "Sibling", &Ref{par.File, par.Name})
 }
 
 // addEnumStructConst adds a struct whose optional fields have enum / typedef
